@@ -7,6 +7,10 @@ CHAIN_NOTE = ("Trusted base: the harness wallet/miner/reference models in /verif
               "Sampling, not enumeration: a clean batch is evidence, not proof.")
 
 CHECKS = {
+ "C18": dict(engine="dbsim", cat="exploration", ref="5/C18",
+   text="The real grin_store::lmdb Store/Batch/DatabaseIterator are driven directly. (a) Sequential histories of put/delete/get/exists/iter over three key spaces in nested batches (depth <= 3, commit or drop at every level), reads on fresh read transactions while a batch is open, clean reopen, data volumes that enlarge the map repeatedly, and key spaces above the iterator's 10 000-key page; every result is compared with a nested-transaction map model (stack of overlays) and the whole store after every top-level batch. (b) Seeded schedules (baton scheduler over real threads, preemption points at every lock operation, commit step, sleep and inside reader deserialization on borrowed map memory) of writers committing versioned key groups through parent and child batches, with dropped children and dropped batches, against reader/iterator threads, while the resize threshold is crossed: an iterator must show exactly one committed version per group and exactly the per-round keys of the rounds committed up to it, never less than what was committed before it began, no operation may fail, no deadlock, no crash of the process. (c) Every crash point inside Batch::commit (child and top level) is enumerated with process death; the reopened store equals the pre-batch map before the top-level commit and the post-batch map after it.",
+   technique="deterministic simulation: nested-transaction reference model for sequential histories, seeded thread schedules with resize pressure for isolation/atomicity, crash-point enumeration around commit",
+   note="Trusted base: hooks H1/H2 and the crash points (MANIFEST.hooks); batches prepared concurrently stay below the 10% headroom of the enlarged map (the envelope of the allocation policy); process death, not power loss."),
  "C17": dict(engine="schedsim", cat="exploration", ref="5/C17",
    text="Seeded schedule exploration: a fixed multiset of operations (peers submitting bodies of competing forks, readers, template builder, segment server, compactor) runs on 4-8 real OS threads against one real Chain; a baton scheduler hooked into grin_util's lock types, the LMDB writer token, the labelled durable steps and sleeps lets exactly one thread run and picks the next one from a seeded PRNG at every such point. Checked: no deadlock, no panic, every observed head names a stored block of matching height/difficulty, head difficulty never decreases per reader, reads never fail; at join the head is the unique most-work block, validate(false) passes and the unspent view equals the replayed ledger. Every run is in a forked child; a recorded choice list replays to the identical trace.",
    technique="deterministic simulation: seeded scheduler controlling real threads at lock/commit points with deadlock detection and sequential-outcome oracle",
@@ -120,6 +124,8 @@ def main():
              "kind_free_text": "real Segmenter/Desegmenter pair over a simulated lossy, reordering, corrupting network"},
             {"name": "schedsim", "path": "/verif/sim/src/schedsim.rs", "serves_properties": [p for p in claimed if p in ("C17",)],
              "kind_free_text": "seeded baton scheduler over real threads on one real Chain"},
+            {"name": "dbsim", "path": "/verif/sim/src/dbsim.rs", "serves_properties": [p for p in claimed if p == "C18"],
+             "kind_free_text": "real LMDB wrapper against a nested-transaction map model; seeded thread schedules; crash points around commit"},
             {"name": "chainsim", "path": "/verif/sim/src/chainsim.rs", "serves_properties": [p for p in claimed if CHECKS[p]["engine"] == "chainsim" or p == "C08"],
              "kind_free_text": "deterministic simulation of N real Chain nodes on a simulated network with byzantine inputs"},
         ],
